@@ -186,11 +186,18 @@ def long_case(case, res):
     z = make_signal(N, dtype, (2,), x)
     f = np.fft.fftfreq(N)[:, None]
     X = np.fft.fft(x.astype(complex), axis=0)
-    for sv in (N // 4 + 0.5, -(N // 2 - 3), 6000.25 if N > 7000 else 60.25, np.array([N // 3, -(N // 5) + 0.75])):
-        out = pb.time_shift(z, sv)
+    svs = [(sv, sv) for sv in (N // 4 + 0.5, -(N // 2 - 3), 6000.25 if N > 7000 else 60.25, np.array([N // 3, -(N // 5) + 0.75]))]
+    # large shifts a few thousandths of a sample off a whole number, given as time Quantities (not "close enough" to whole)
+    for sv in (1000.004, -2000.01, np.array([1500.01, -800.005]), N // 2 + 0.002):
+        svs.append((sv, (sv / z.sample_rate).to(u.ms)))
+        svs.append((sv, sv))
+    for sv, sarg in svs:
+        out = pb.time_shift(z, sarg)
+        if isinstance(sarg, u.Quantity):
+            res.hits["long signal, Quantity shift slightly off a whole sample"] += 1
         res.transitions += 1
         res.traces += 1
-        res.state(("long", N, str(dtype), str(sv)))
+        res.state(("long", N, str(dtype), str(sarg)))
         sarr = np.broadcast_to(np.asarray(sv, dtype=float), (2,))
         ref = np.fft.ifft(X * np.exp(-2j * np.pi * f * sarr[None, :]), axis=0)
         if dtype.kind != "c":
@@ -203,7 +210,7 @@ def long_case(case, res):
         e = float(np.max(np.abs(np.asarray(out.data) - ref)))
         if not res.ratio("long-signal err / (64 eps32)", e, 64 * EPS32):
             res.violation("time_shift|long signal|values", f"N={N} {dtype} shift {sv}: max |out - reference| = {e:.3g} (budget "
-                          f"{64 * EPS32:.3g}); phase accuracy is lost for large shifts", case, {"shift": str(sv)})
+                          f"{64 * EPS32:.3g}); phase accuracy is lost for large shifts", case, {"shift": str(sarg)})
     res.hits["long signal, large shift"] += 1
     res.sample({"long": N, "dtype": str(dtype)}, 1)
     return res
@@ -433,8 +440,10 @@ def check_call_block(res, case, z, Xof, shift_arg, svals, ss, sub, crop_pair, to
         flat = [svals[idx] for idx in np.ndindex(*ss)] if ss else [svals[()]]
         front = max(0, max(math.ceil(v) for v in flat))
         back = max(0, max(math.ceil(-v) for v in flat))
+        crop_form = (True, np.True_, 1, np.bool_(True))[(front + 2 * back + len(flat)) % 4]      # every truthy spelling of crop
+        sub = dict(sub, crop=repr(crop_form))
         try:
-            oc = pb.time_shift(z, shift_arg, crop=True)
+            oc = pb.time_shift(z, shift_arg, crop=crop_form)
         except Exception as e:
             res.transitions += 1
             res.violation(f"{site}|crop raised", f"{type(e).__name__}: {e} [{sub}]", case, sub)
@@ -472,7 +481,7 @@ def main(argv=None):
         PID, gen_cases=gen_cases, check_case=check_case, describe=describe,
         required_hits=["zero-fill rows checked", "length-1 shift axis broadcast over a longer sample axis",
                        "shift array with fewer axes than the sample shape", "|s| >= N (all zero)", "crop to empty",
-                       "mixed-sign crop", "time Quantity shift", "Quantity unit not reciprocal to the rate unit", "negative zero in a shift array", "argument forms", "long signal, large shift", "too many dims rejected",
+                       "mixed-sign crop", "time Quantity shift", "Quantity unit not reciprocal to the rate unit", "negative zero in a shift array", "argument forms", "long signal, large shift", "long signal, Quantity shift slightly off a whole sample", "too many dims rejected",
                        "complex even-N fractional (two Nyquist conventions accepted)",
                        "all-zero shift (identity fast path)"],
         assumptions=["phase ramp is single precision by design: value budget 16*eps32*max|x| (a more accurate implementation passes)",
